@@ -441,6 +441,103 @@ func genC11(o *hx.Out, tier string) {
 			o.Add("stream requests beside application writes", verdict, "expect", "ok", fmt.Sprintf("sr-vs-writes hb=%d writes=%d", nhb, nw))
 		}
 	}
+	// ---- whole frames at the size limits: a signing node (and an unsigned v1 / v2 one) writes
+	// messages whose payload is 253..255 bytes next to small ones, as messages and as frames to
+	// forward; every write on every channel must be exactly one frame that reads back (with the
+	// key) as the message submitted, in submission order ----
+	{
+		cd := shipped("common")
+		cdrw := &dialect.ReadWriter{Dialect: cd}
+		cdrw.Initialize() //nolint:errcheck
+		var big []message.Message
+		for _, m := range cd.Messages {
+			mrw := cdrw.GetMessage(m.GetID())
+			full := hx.RandMessage(r, m, 1)
+			if n := len(mrw.Write(full, true).Payload); n >= 250 {
+				big = append(big, m)
+			}
+		}
+		key := frame.NewV2Key([]byte("0123456789abcdef0123456789abcdef"))
+		type cfg struct {
+			name string
+			ver  gomavlib.Version
+			key  *frame.V2Key
+		}
+		for _, c := range []cfg{{"signed-v2", gomavlib.V2, key}, {"v2", gomavlib.V2, nil}, {"v1", gomavlib.V1, nil}} {
+			pipes := []*scn.Pipe{scn.NewPipe("s0"), scn.NewPipe("s1")}
+			node := newNode(pipes, func(nc *gomavlib.NodeConf) { nc.Dialect = cd; nc.OutVersion = c.ver; nc.OutKey = c.key })
+			col := scn.NewCollector(node, 0, false)
+			chs, ok := openChannels(col, pipes)
+			verdict := "ok"
+			if !ok {
+				verdict = "CHANNELS-NOT-OPEN"
+			} else {
+				var sent []message.Message
+				var fwd []bool
+				for i := 0; i < 24; i++ {
+					var m message.Message
+					if i%2 == 0 && len(big) > 0 {
+						m = hx.RandMessage(r, big[r.Intn(len(big))], 1) // every byte non-zero: nothing is truncated
+					} else {
+						m = hx.RandMessage(r, cd.Messages[r.Intn(len(cd.Messages))], 2)
+					}
+					if c.ver == gomavlib.V1 && m.GetID() > 255 {
+						continue
+					}
+					sent = append(sent, m)
+					fwd = append(fwd, i%3 == 2)
+					if i%3 == 2 {
+						// as a frame to forward: version and header are the frame's own
+						mrw := cdrw.GetMessage(m.GetID())
+						ff := &frame.V2Frame{SequenceNumber: byte(i), SystemID: 77, ComponentID: 7, Message: m}
+						raw := mrw.Write(m, true)
+						ff.Message = raw
+						ff.Checksum = ff.GenerateChecksum(mrw.CRCExtra())
+						ff.Message = m
+						node.WriteFrameAll(ff) //nolint:errcheck
+					} else {
+						node.WriteMessageAll(m) //nolint:errcheck
+					}
+				}
+				_ = chs
+				for pi, p := range pipes {
+					p.WaitWrites(func(ws [][]byte) bool { return len(ws) >= len(sent) })
+					ws := p.Writes()
+					if len(ws) != len(sent) {
+						verdict = fmt.Sprintf("PIPE-%d-%d-WRITES-FOR-%d-ITEMS", pi, len(ws), len(sent))
+						break
+					}
+					for i, w := range ws {
+						// originated frames of the signing node are read with its key: the reader checks the signature
+						var inKey *frame.V2Key
+						if c.key != nil && !fwd[i] {
+							inKey = c.key
+						}
+						rd := &frame.Reader{ByteReader: strings.NewReader(string(w)), DialectRW: cdrw, InKey: inKey}
+						rd.Initialize() //nolint:errcheck
+						fr, err := rd.Read()
+						if err != nil {
+							verdict = fmt.Sprintf("PIPE-%d-WRITE-%d-NOT-A-FRAME (%d bytes): %v", pi, i, len(w), err)
+							break
+						}
+						if hx.Value(fr.GetMessage()) != hx.Value(canon(cdrw, sent[i], c.ver == gomavlib.V2 || fwd[i])) {
+							verdict = fmt.Sprintf("PIPE-%d-WRITE-%d-OTHER-MESSAGE", pi, i)
+							break
+						}
+						if _, err := rd.Read(); err == nil {
+							verdict = fmt.Sprintf("PIPE-%d-WRITE-%d-MORE-THAN-ONE-FRAME", pi, i)
+							break
+						}
+					}
+					if verdict != "ok" {
+						break
+					}
+				}
+			}
+			node.Close()
+			o.Add("whole frames at the size limits", verdict, "expect", "ok", "size-limits "+c.name)
+		}
+	}
 	// ---- a stalled channel does not keep writes from the healthy ones ----
 	for sc := 0; sc < 4; sc++ {
 		pipes := []*scn.Pipe{scn.NewPipe("stalled"), scn.NewPipe("healthy")}
@@ -509,4 +606,14 @@ func countFrameEvents(evs []gomavlib.Event) int {
 		}
 	}
 	return n
+}
+
+// canon is the message as it reads back after one encode / decode through the dialect.
+func canon(drw *dialect.ReadWriter, m message.Message, v2 bool) message.Message {
+	mrw := drw.GetMessage(m.GetID())
+	out, err := mrw.Read(mrw.Write(m, v2), v2)
+	if err != nil {
+		return m
+	}
+	return out
 }
